@@ -18,6 +18,7 @@
 //! implementation's call log in every case; see `Oracle` below.
 
 use metrique_writer::sink::background_verif::WakerHarness;
+use metrique_writer::EntrySink;
 use metrique_writer_core::sink::FlushWait;
 use std::collections::{BTreeSet, VecDeque};
 use std::pin::Pin;
@@ -48,6 +49,14 @@ enum Op {
     /// shut / open the flush gate: while shut every `stream.flush()` blocks
     Fclose,
     Fopen,
+    /// let exactly one `flush` call through the shut flush gate
+    Fstep,
+    /// shut / open the recorder gate: while shut the writer's end-of-cycle histogram callbacks block
+    Hclose,
+    Hopen,
+    /// let three (short) flush intervals pass: if the writer is held at a gate, the deadline of its current
+    /// outer-loop iteration has then certainly passed
+    Sleep,
 }
 
 #[derive(Clone, Debug, PartialEq)]
@@ -74,6 +83,10 @@ impl Op {
             Op::DropU(h) => format!("dropU:{h}"),
             Op::Fclose => "fclose".into(),
             Op::Fopen => "fopen".into(),
+            Op::Fstep => "fstep".into(),
+            Op::Hclose => "hclose".into(),
+            Op::Hopen => "hopen".into(),
+            Op::Sleep => "sleep".into(),
         }
     }
     fn dec(s: &str) -> Option<Op> {
@@ -92,6 +105,10 @@ impl Op {
             ["dropU", h] => Op::DropU(h.parse().ok()?),
             ["fclose"] => Op::Fclose,
             ["fopen"] => Op::Fopen,
+            ["fstep"] => Op::Fstep,
+            ["hclose"] => Op::Hclose,
+            ["hopen"] => Op::Hopen,
+            ["sleep"] => Op::Sleep,
             _ => return None,
         })
     }
@@ -110,6 +127,10 @@ impl Op {
             Op::DropU(_) => "dropU",
             Op::Fclose => "fclose",
             Op::Fopen => "fopen",
+            Op::Fstep => "fstep",
+            Op::Hclose => "hclose",
+            Op::Hopen => "hopen",
+            Op::Sleep => "sleep",
         }
     }
 }
@@ -150,6 +171,7 @@ impl Case {
         let mut live = vec![true];
         let mut join_held = true;
         let mut fclosed = false;
+        let mut hclosed = false;
         for op in &self.ops[1..] {
             match op {
                 Op::New(_) => return false,
@@ -200,6 +222,28 @@ impl Case {
                     }
                     fclosed = false;
                 }
+                Op::Fstep => {
+                    if !fclosed {
+                        return false;
+                    }
+                }
+                Op::Hclose => {
+                    if hclosed {
+                        return false;
+                    }
+                    hclosed = true;
+                }
+                Op::Hopen => {
+                    if !hclosed {
+                        return false;
+                    }
+                    hclosed = false;
+                }
+                Op::Sleep => {
+                    if !self.short {
+                        return false;
+                    }
+                }
             }
         }
         true
@@ -210,6 +254,7 @@ impl Case {
         let mut live = vec![true];
         let mut join_held = true;
         let mut fclosed = false;
+        let mut hclosed = false;
         for op in &self.ops[1..] {
             match op {
                 Op::Clone(_) => live.push(true),
@@ -217,6 +262,8 @@ impl Case {
                 Op::Forget | Op::DropJoin | Op::DropJoinU | Op::DropJoinT => join_held = false,
                 Op::Fclose => fclosed = true,
                 Op::Fopen => fclosed = false,
+                Op::Hclose => hclosed = true,
+                Op::Hopen => hclosed = false,
                 _ => {}
             }
         }
@@ -224,13 +271,16 @@ impl Case {
             // already finished? (gate:1000 present after the last append, no join, no handles)
             let last_append = self.ops.iter().rposition(|o| matches!(o, Op::Append(..)));
             let big_gate = self.ops.iter().rposition(|o| matches!(o, Op::Gate(k) if *k >= 1000));
-            !fclosed && !join_held && !live.iter().any(|l| *l) && big_gate.is_some() && big_gate >= last_append
+            !fclosed && !hclosed && !join_held && !live.iter().any(|l| *l) && big_gate.is_some() && big_gate >= last_append
         };
         if tail_ok {
             return self;
         }
         if fclosed {
             self.ops.push(Op::Fopen);
+        }
+        if hclosed {
+            self.ops.push(Op::Hopen);
         }
         self.ops.push(Op::Gate(1000));
         if join_held {
@@ -303,6 +353,7 @@ fn gen_case_plain(rng: &mut Rng, p: &Profile) -> Case {
     let short = rng.below(100) < p.short_pct;
     let tiny = rng.below(100) < p.tiny_pct;
     let mut fclosed = false;
+    let mut hclosed = false;
     let cap = *rng.pick(p.caps);
     let mut ops = vec![Op::New(cap)];
     let mut live = vec![true];
@@ -370,8 +421,22 @@ fn gen_case_plain(rng: &mut Rng, p: &Profile) -> Case {
                 live[h] = false;
             }
         } else if pick(p.w_fgate) {
-            ops.push(if fclosed { Op::Fopen } else { Op::Fclose });
-            fclosed = !fclosed;
+            match rng.below(5) {
+                0 | 1 => {
+                    ops.push(if fclosed { Op::Fopen } else { Op::Fclose });
+                    fclosed = !fclosed;
+                }
+                2 => {
+                    ops.push(if hclosed { Op::Hopen } else { Op::Hclose });
+                    hclosed = !hclosed;
+                }
+                3 if fclosed => ops.push(Op::Fstep),
+                _ => {
+                    if short {
+                        ops.push(Op::Sleep)
+                    }
+                }
+            }
         } else if join_held {
             if short && rng.chance(1, 2) {
                 ops.push(Op::Forget);
@@ -391,6 +456,9 @@ fn gen_case_plain(rng: &mut Rng, p: &Profile) -> Case {
 ///  B. flush requests pending (in the channel) when the writer notices shutdown, with entries
 ///     appended before them still unwritten; the gate is then opened step by step;
 ///  E. the writer held inside the flush of `handle_waiting_wakers`, appends + drop(join) in that window;
+///  F. a second flush request collected by the call that completes the first one, > 32 entries ahead of it,
+///     the next drain cut by the deadline at 32 entries;
+///  G. the writer held inside its end-of-cycle recorder callback, appends + drop(join) in that window;
 ///  D. `shutdown_timeout` expiring inside the final drain at 31 / 32 / 33 / 64 pending entries
 ///     (join-handle, forgotten-handle and last-handle-dropped shutdowns).
 fn gen_directed(rng: &mut Rng) -> Case {
@@ -405,7 +473,50 @@ fn gen_directed(rng: &mut Rng) -> Case {
     let mut tiny = false;
     // how the shutdown starts: 0 = drop(join), 1 = forget + last handle dropped, 2 = last handle dropped, join held
     let how = rng.below(3);
-    match rng.below(4) {
+    match rng.below(6) {
+        4 => {
+            // F: a flush request F2 arrives, with > 32 entries appended before it, while the writer is inside
+            // the stream flush that completes F1; the next drain pass is cut by the deadline at 32 entries:
+            // F2 must stay pending (its batch is sized by the capacity, not by a stale queue length)
+            short = true;
+            let cap = *rng.pick(&[40usize, 64, 100]);
+            let n = rng.range(33, cap as u64 - 1) as usize;
+            ops = vec![Op::New(cap), Op::Append(0, res(rng)), Op::Flush, Op::Fclose, Op::Sleep, Op::Gate(1), Op::Fstep];
+            for _ in 0..n {
+                ops.push(Op::Append(0, Res::Ok));
+            }
+            ops.push(Op::Flush);
+            ops.push(Op::Sleep);
+            ops.push(Op::Fopen);
+            ops.push(Op::Sleep);
+            ops.push(Op::Gate(32));
+            if rng.chance(1, 2) {
+                ops.push(Op::Gate(rng.range(1, 3) as usize));
+            }
+        }
+        5 => {
+            // G: the writer is held inside its end-of-cycle recorder callback (queue length already sampled);
+            // entries are appended, then the join handle is dropped: they must all be written
+            short = true;
+            let cap = *rng.pick(&[2usize, 4, 8]);
+            ops = vec![Op::New(cap)];
+            if rng.chance(1, 2) {
+                ops.push(Op::Append(0, res(rng)));
+                ops.push(Op::Gate(1));
+            }
+            ops.push(Op::Hclose);
+            for _ in 0..rng.range(1, cap as u64) {
+                ops.push(Op::Append(0, res(rng)));
+            }
+            if rng.chance(1, 3) {
+                ops.push(Op::Flush);
+            }
+            ops.push(Op::DropJoin);
+            ops.push(Op::Hopen);
+            for _ in 0..rng.below(3) {
+                ops.push(Op::Gate(1));
+            }
+        }
         3 => {
             // E: the writer is held inside the flush of `handle_waiting_wakers` (a request completes on a
             // drained queue); entries are appended and the shutdown begins in that window
@@ -618,9 +729,9 @@ impl Running {
         }
         let joined = self.dropper.as_ref().map(|d| d.has_returned()).unwrap_or(false);
         let ov = self.counters.overflows.load(Ordering::SeqCst);
-        let (calls, entered, closed, after_close, fblk) = {
+        let (calls, entered, closed, after_close, fblk, hblk, fst) = {
             let g = self.built_gate.lock();
-            (g.calls.clone(), g.entered, g.closed, g.calls_after_close, g.fblocked)
+            (g.calls.clone(), g.entered, g.closed, g.calls_after_close, g.fblocked, g.hblocked, g.fstepped)
         };
         // ---- oracle C04 (flush barrier), at the first observation of a completed future
         for i in newly {
@@ -666,7 +777,7 @@ impl Running {
         let fl = calls.iter().filter(|c| **c == Call::Flush).count();
         let done: Vec<String> = self.flushes.iter().enumerate().filter(|(_, f)| f.done).map(|(i, _)| i.to_string()).collect();
         format!(
-            "next={} ent={} fl={} ov={} done={} closed={} joined={} fblk={}",
+            "next={} ent={} fl={} ov={} done={} closed={} joined={} fblk={} hblk={} fst={}",
             if next.is_empty() { "-".to_string() } else { next.join(",") },
             entered,
             if self.short { "*".to_string() } else { fl.to_string() },
@@ -674,7 +785,9 @@ impl Running {
             if done.is_empty() { "-".to_string() } else { done.join(",") },
             closed as u8,
             joined as u8,
-            fblk
+            fblk,
+            hblk,
+            fst
         )
     }
 
@@ -795,6 +908,11 @@ fn run_guided(case: &Case, kind: Kind, predicted: &[String], timeout: Duration) 
             }
             Op::Fclose => r.built_gate.set_fclosed(true),
             Op::Fopen => r.built_gate.set_fclosed(false),
+            Op::Fstep => r.built_gate.fstep(),
+            Op::Hclose => r.built_gate.set_hclosed(true),
+            Op::Hopen => r.built_gate.set_hclosed(false),
+            // a lower bound on elapsed time ("the interval has passed"), never an upper bound on anything
+            Op::Sleep => std::thread::sleep(SHORT_INTERVAL * 3),
             Op::Forget => {
                 if let Some(j) = r.join.take() {
                     j.forget();
@@ -1802,6 +1920,538 @@ fn subscriber_stage(args: &Args, rep: &mut Report) {
     }
 }
 
+
+// ------------------------------------------------------------------------------------------------
+// C01: "rate-limited". One validation failure, a quiet period, then a burst of validation failures within a
+// few milliseconds: the number of in-band reports written during the burst is bounded by the limiter model
+// (`Limiter.windowBound`, theorem `c01_limiter_bound`: at most ⌊d⌋ + 2 in a window of d seconds).
+// Runs while nothing else in the process produces validation failures, and before the subscriber stage.
+
+fn limiter_stage(args: &Args, rep: &mut Report) {
+    let reports = |g: &std::sync::Arc<GateShared>| g.lock().calls.iter().filter(|c| **c == Call::Report).count();
+    let nexts = |g: &std::sync::Arc<GateShared>| g.lock().calls.iter().filter(|c| matches!(c, Call::Next(..))).count();
+    let a = build(Kind::Typed, 64, QUIET_INTERVAL, false);
+    let b = build(Kind::Boxed, 64, QUIET_INTERVAL, false);
+    a.handle.append(IdEntry { id: 0, res: Res::Validation });
+    if !wait_until(|| nexts(&a.gate) == 1, Duration::from_secs(20)) {
+        rep.oracle_failure("queue:c01-lost", "limiter-stage", "-", "an entry did not reach the stream within 20 s");
+        return;
+    }
+    // the quiet period (a lower bound on elapsed time, nothing is waited for)
+    std::thread::sleep(Duration::from_millis(4200));
+    let before = reports(&a.gate) + reports(&b.gate);
+    let burst = 8u64;
+    let t0 = Instant::now();
+    for i in 0..burst {
+        if i % 2 == 0 {
+            a.handle.append(IdEntry { id: 1 + i, res: Res::Validation });
+        } else {
+            b.handle.append(IdEntry { id: 1 + i, res: Res::Validation });
+        }
+    }
+    let ok = wait_until(|| nexts(&a.gate) + nexts(&b.gate) == 1 + burst as usize, Duration::from_secs(20));
+    let d_ms = t0.elapsed().as_millis() as u64 + 1;
+    let n = reports(&a.gate) + reports(&b.gate) - before;
+    let case = format!("limiter burst={burst} window_ms={d_ms}");
+    rep.case(&case, true);
+    rep.bump_by("limiter stage: reports written during the burst", n as u64);
+    if !ok {
+        rep.oracle_failure("queue:c01-lost", &case, "-", "the burst did not reach the stream within 20 s");
+    }
+    match predict(args, &[format!("limiter {d_ms}")]) {
+        Some(r) => {
+            let bound = r[0].strip_prefix("bound=").and_then(|v| v.parse::<usize>().ok());
+            match bound {
+                Some(bound) if n > bound => rep.oracle_failure(
+                    "queue:c01-report-rate",
+                    &case,
+                    &format!("reports={n}"),
+                    &format!("{n} in-band error reports were written within {d_ms} ms after a quiet period; a limiter of one per second admits at most {bound} in such a window"),
+                ),
+                Some(_) => {}
+                None => rep.disagreement("queue/limiter", &case, "-", &r[0]),
+            }
+        }
+        None => rep.driver_available = false,
+    }
+    for q in [a, b] {
+        drop(q.handle);
+        drop(q.join);
+    }
+}
+
+// ------------------------------------------------------------------------------------------------
+// C09: "appending neither blocks nor fails" — also when the (rate-limited) overflow log event is being
+// handled: (b) one producer is held inside the tracing subscriber's `event` for the overflow error while a
+// second producer makes overflowing appends; (a) the subscriber's `event` itself appends to the same full
+// queue (re-entrancy). Every append must return within a bounded time. The subscribers are thread-scoped
+// (`with_default` on the producer threads only): the rest of the process keeps having no subscriber.
+
+struct OverflowEventSub {
+    seen: std::sync::Arc<std::sync::atomic::AtomicBool>,
+    /// (b): block inside `event` until released
+    hold: Option<std::sync::Arc<(std::sync::Mutex<bool>, std::sync::Condvar)>>,
+    /// (a): append to the same queue from inside `event`
+    reenter: Option<std::sync::Mutex<Option<Handle>>>,
+    busy: std::sync::atomic::AtomicBool,
+}
+
+impl tracing::Subscriber for OverflowEventSub {
+    fn enabled(&self, _: &tracing::Metadata<'_>) -> bool {
+        true
+    }
+    fn new_span(&self, _: &tracing::span::Attributes<'_>) -> tracing::span::Id {
+        tracing::span::Id::from_u64(1)
+    }
+    fn record(&self, _: &tracing::span::Id, _: &tracing::span::Record<'_>) {}
+    fn record_follows_from(&self, _: &tracing::span::Id, _: &tracing::span::Id) {}
+    fn event(&self, e: &tracing::Event<'_>) {
+        let m = e.metadata();
+        if *m.level() != tracing::Level::ERROR || !m.file().map(|f| f.ends_with("background.rs")).unwrap_or(false) {
+            return;
+        }
+        if self.busy.swap(true, Ordering::SeqCst) {
+            return; // nested event of our own re-entrant append
+        }
+        self.seen.store(true, Ordering::SeqCst);
+        if let Some(h) = &self.hold {
+            let (m, cv) = &**h;
+            let mut released = m.lock().unwrap_or_else(|e| e.into_inner());
+            let t0 = Instant::now();
+            while !*released && t0.elapsed() < Duration::from_secs(60) {
+                released = cv.wait_timeout(released, Duration::from_millis(100)).unwrap_or_else(|e| e.into_inner()).0;
+            }
+        }
+        if let Some(r) = &self.reenter {
+            if let Some(h) = r.lock().unwrap_or_else(|e| e.into_inner()).as_ref() {
+                h.append(IdEntry { id: 999_999, res: Res::Ok });
+            }
+        }
+        self.busy.store(false, Ordering::SeqCst);
+    }
+    fn enter(&self, _: &tracing::span::Id) {}
+    fn exit(&self, _: &tracing::span::Id) {}
+}
+
+fn overflow_event_stage(rep: &mut Report) {
+    use std::sync::atomic::AtomicBool;
+    use std::sync::{Arc, Condvar, Mutex};
+    let bound = Duration::from_secs(10);
+    let built = build(Kind::Typed, 2, QUIET_INTERVAL, true);
+    built.handle.append(IdEntry { id: 0, res: Res::Ok });
+    if !wait_until(|| built.gate.lock().entered == 1, Duration::from_secs(20)) {
+        rep.notes.push("overflow-event stage: the writer did not take the first entry; stage skipped".into());
+        return;
+    }
+    built.handle.append(IdEntry { id: 1, res: Res::Ok });
+    built.handle.append(IdEntry { id: 2, res: Res::Ok }); // the ring (capacity 2) is full: every append displaces one
+    let mut failure: Option<String> = None;
+    // producer thread: overflowing appends every 100 ms until its subscriber has seen the overflow event
+    let spawn_producer = |sub: OverflowEventSub, h: Handle, seen: Arc<AtomicBool>, done: Arc<AtomicBool>| {
+        std::thread::spawn(move || {
+            tracing::subscriber::with_default(sub, || {
+                let t0 = Instant::now();
+                let mut i = 10u64;
+                while !seen.load(Ordering::SeqCst) && t0.elapsed() < Duration::from_secs(4) {
+                    h.append(IdEntry { id: i, res: Res::Ok });
+                    i += 1;
+                    if !seen.load(Ordering::SeqCst) {
+                        std::thread::sleep(Duration::from_millis(100));
+                    }
+                }
+            });
+            done.store(true, Ordering::SeqCst);
+        })
+    };
+    // ---- (b) a producer is held inside the overflow event; a second producer appends
+    let hold = Arc::new((Mutex::new(false), Condvar::new()));
+    let (seen_b, done_b) = (Arc::new(AtomicBool::new(false)), Arc::new(AtomicBool::new(false)));
+    let sub_b = OverflowEventSub { seen: seen_b.clone(), hold: Some(hold.clone()), reenter: None, busy: AtomicBool::new(false) };
+    let tb = spawn_producer(sub_b, built.handle.clone(), seen_b.clone(), done_b.clone());
+    let held = wait_until(|| seen_b.load(Ordering::SeqCst) || done_b.load(Ordering::SeqCst), Duration::from_secs(10)) && seen_b.load(Ordering::SeqCst);
+    if held {
+        let done_c = Arc::new(AtomicBool::new(false));
+        let (h, d) = (built.handle.clone(), done_c.clone());
+        let tc = std::thread::spawn(move || {
+            for i in 0..3u64 {
+                h.append(IdEntry { id: 100 + i, res: Res::Ok });
+            }
+            d.store(true, Ordering::SeqCst);
+        });
+        if !wait_until(|| done_c.load(Ordering::SeqCst), bound) {
+            failure = Some(format!(
+                "overflowing appends of a second producer did not return within {} s while another producer was inside the rate-limited overflow log event",
+                bound.as_secs()
+            ));
+        }
+        *hold.0.lock().unwrap_or_else(|e| e.into_inner()) = true;
+        hold.1.notify_all();
+        if wait_until(|| done_c.load(Ordering::SeqCst), bound) {
+            let _ = tc.join();
+        }
+        rep.bump("overflow-event stage: second producer appended while the first was held in the event");
+    } else {
+        rep.notes.push("overflow-event stage: the overflow log event was not seen by the thread-scoped subscriber within 4 s (b)".into());
+        *hold.0.lock().unwrap_or_else(|e| e.into_inner()) = true;
+        hold.1.notify_all();
+    }
+    if wait_until(|| done_b.load(Ordering::SeqCst), bound) {
+        let _ = tb.join();
+    } else if failure.is_none() {
+        failure = Some("the producer held inside the overflow log event did not return after it was released".into());
+    }
+    // ---- (a) the subscriber appends to the same full queue from inside the event
+    let (seen_a, done_a) = (Arc::new(AtomicBool::new(false)), Arc::new(AtomicBool::new(false)));
+    let sub_a = OverflowEventSub { seen: seen_a.clone(), hold: None, reenter: Some(Mutex::new(Some(built.handle.clone()))), busy: AtomicBool::new(false) };
+    let ta = spawn_producer(sub_a, built.handle.clone(), seen_a.clone(), done_a.clone());
+    if wait_until(|| done_a.load(Ordering::SeqCst), Duration::from_secs(4) + bound) {
+        let _ = ta.join();
+        if seen_a.load(Ordering::SeqCst) {
+            rep.bump("overflow-event stage: re-entrant append from the event returned");
+        } else {
+            rep.notes.push("overflow-event stage: the overflow log event was not seen within 4 s (a)".into());
+        }
+    } else if failure.is_none() {
+        failure = Some(format!(
+            "an append made from inside the tracing subscriber's handling of the overflow log event (re-entrancy) did not return within {} s",
+            bound.as_secs()
+        ));
+    }
+    let case = "overflow-event (b) held-in-event + second producer, (a) re-entrant append";
+    rep.case(case, held);
+    if let Some(w) = failure {
+        rep.oracle_failure("queue:c09-append-blocks", case, "-", &w);
+    }
+    built.gate.open();
+    drop(built.handle);
+    let mut d = JoinDropper::start(built.join, Duration::from_secs(30));
+    d.finish(Duration::from_secs(30));
+}
+
+
+// ------------------------------------------------------------------------------------------------
+// C05: the shutdown contract for queues built with extreme but legal builder values. Rust oracle from the
+// statement: `drop(join_handle)` returns (without panicking) only after every entry appended before it has
+// been handed to the stream, in order, the stream has been flushed and dropped; the forget path likewise once
+// the last handle is gone. (Fewer than 32 entries, so that not even a 1 ns shutdown_timeout may cut the drain.)
+
+#[derive(Clone, Debug)]
+struct ExtremeCase {
+    kind: Kind,
+    cap: usize,
+    interval_ns: u64,
+    timeout: Timeout,
+    recorder: bool,
+    named: bool,
+    slow_us: u64,
+    forget: bool,
+    n: usize,
+}
+
+impl ExtremeCase {
+    fn encode(&self) -> String {
+        format!(
+            "extreme {} {} {} {} {} {} {} {} {}",
+            self.kind.name(), self.cap, self.interval_ns, self.timeout.name(), self.recorder as u8, self.named as u8, self.slow_us, self.forget as u8, self.n
+        )
+    }
+    fn decode(l: &str) -> Option<ExtremeCase> {
+        let w: Vec<&str> = l.split_whitespace().collect();
+        if w.len() != 10 || w[0] != "extreme" {
+            return None;
+        }
+        Some(ExtremeCase {
+            kind: if w[1] == "typed" { Kind::Typed } else { Kind::Boxed },
+            cap: w[2].parse().ok()?,
+            interval_ns: w[3].parse().ok()?,
+            timeout: Timeout::parse(w[4])?,
+            recorder: w[5] == "1",
+            named: w[6] == "1",
+            slow_us: w[7].parse().ok()?,
+            forget: w[8] == "1",
+            n: w[9].parse().ok()?,
+        })
+    }
+}
+
+fn run_extreme(c: &ExtremeCase) -> Option<String> {
+    let cfg = ExtremeCfg { kind: c.kind, cap: c.cap, interval: Duration::from_nanos(c.interval_ns), timeout: c.timeout, recorder: c.recorder, named: c.named, slow_us: c.slow_us };
+    let built = catch(|| build_extreme(&cfg));
+    let (handle, join, gate) = match built {
+        Ok(b) => b,
+        Err(p) => return Some(format!("building the queue panicked: {p}")),
+    };
+    // the writer takes the first entry and is held inside `next`; the others wait in the ring (no overflow)
+    handle.append(IdEntry { id: 0, res: Res::Ok });
+    if !wait_until(|| gate.lock().entered == 1, Duration::from_secs(20)) {
+        gate.open();
+        return Some("the writer did not take the first entry within 20 s".into());
+    }
+    for i in 1..c.n {
+        handle.append(IdEntry { id: i as u64, res: Res::Ok });
+    }
+    let mut what = None;
+    if c.forget {
+        join.forget();
+        drop(handle);
+        gate.open();
+        if !wait_until(|| gate.lock().closed, Duration::from_secs(30)) {
+            what = Some("join handle forgotten and the last queue handle dropped, but the stream was not dropped within 30 s".to_string());
+        }
+    } else {
+        let mut d = JoinDropper::start(join, Duration::from_secs(30));
+        if d.has_returned() && !gate.lock().closed {
+            what = Some("drop(join_handle) returned although the writer is still held inside next()".to_string());
+        }
+        gate.open();
+        if !d.finish(Duration::from_secs(30)) {
+            what = Some("drop(join_handle) did not return within 30 s although the stream accepts everything".to_string());
+        } else if d.panicked.load(Ordering::SeqCst) {
+            what = Some("drop(join_handle) panicked".to_string());
+        }
+        drop(handle);
+    }
+    let g = gate.lock();
+    let written: Vec<u64> = g.calls.iter().filter_map(|c| if let Call::Next(id, _) = c { Some(*id) } else { None }).collect();
+    let want: Vec<u64> = (0..c.n as u64).collect();
+    if what.is_none() {
+        if !g.closed {
+            what = Some("drop(join_handle) returned but the stream was not dropped".into());
+        } else if written != want {
+            what = Some(format!("{} of the {} entries appended before the shutdown were written (in order: {})", written.len(), c.n, written == want[..written.len().min(want.len())]));
+        } else if g.calls.last() != Some(&Call::Flush) {
+            what = Some("the stream was dropped without a final flush after the last entry".into());
+        } else if g.calls_after_close > 0 {
+            what = Some("the stream was called after it had been dropped".into());
+        }
+    } else if written != want {
+        what = Some(format!("{}; {} of {} entries written, stream dropped: {}", what.unwrap(), written.len(), c.n, g.closed));
+    }
+    what
+}
+
+fn extremes_stage(args: &Args, rep: &mut Report, rng: &mut Rng) {
+    let mut cases = vec![];
+    if let Some(l) = args.replay_case() {
+        cases.extend(ExtremeCase::decode(&l));
+    } else {
+        for kind in [Kind::Typed, Kind::Boxed] {
+            for cap in [1usize, 2, 65_536] {
+                for interval_ns in [1_000u64, 59_999_999_999] {
+                    for timeout in Timeout::all() {
+                        for (recorder, named) in [(false, false), (true, true), (true, false), (false, true)] {
+                            let n = if cap == 1 { 2 } else { rng.range(2, (cap as u64 + 1).min(20)) as usize };
+                            let slow_us = *rng.pick(&[0u64, 0, 20]);
+                            cases.push(ExtremeCase { kind, cap, interval_ns, timeout, recorder, named, slow_us, forget: false, n });
+                            // the forget path is only noticed by the outer loop: short interval only
+                            if interval_ns == 1_000 && rng.chance(1, 2) {
+                                cases.push(ExtremeCase { kind, cap, interval_ns, timeout, recorder, named, slow_us, forget: true, n });
+                            }
+                        }
+                    }
+                }
+            }
+        }
+    }
+    let mut reported = 0;
+    for c in &cases {
+        let enc = c.encode();
+        rep.case(&enc, true);
+        rep.bump(&format!("extreme shutdown_timeout:{}", c.timeout.name()));
+        if let Some(what) = run_extreme(c) {
+            reported += 1;
+            if reported <= 3 {
+                rep.oracle_failure(&format!("queue:c05-extreme-{}", c.timeout.name()), &enc, "-", &what);
+            }
+        }
+    }
+    rep.bump_by("extreme builder values: queues", cases.len() as u64);
+}
+
+// ------------------------------------------------------------------------------------------------
+// C04: many outstanding flush requests. The writer is held (inside `next`, or inside `flush`), one entry is
+// unwritten, k flush requests are made from several threads: while the gate is shut NONE of the futures may
+// be ready — whatever k is —; after it opens all complete, with the entry written and flushed before.
+
+fn many_flushes(kind: Kind, k: usize, held_in_flush: bool) -> Option<String> {
+    let built = build(kind, 4, QUIET_INTERVAL, true);
+    let gate = built.gate.clone();
+    if held_in_flush {
+        // an entry is written, a first request makes the writer flush, the flush gate holds it there;
+        // then the unwritten entry is appended
+        gate.set_fclosed(true);
+        gate.release(1);
+        built.handle.append(IdEntry { id: 0, res: Res::Ok });
+        let mut f0 = Box::pin(built.handle.flush());
+        if !wait_until(|| gate.lock().fblocked == 1, Duration::from_secs(20)) {
+            gate.open();
+            return Some("the writer did not reach the stream flush of the first request within 20 s".into());
+        }
+        built.handle.append(IdEntry { id: 1, res: Res::Ok });
+        if poll_once(&mut f0) {
+            gate.open();
+            return Some("the first flush future is ready while the writer is still inside the stream flush".into());
+        }
+        std::mem::forget(f0);
+    } else {
+        built.handle.append(IdEntry { id: 1, res: Res::Ok });
+        if !wait_until(|| gate.lock().entered == 1, Duration::from_secs(20)) {
+            gate.open();
+            return Some("the writer did not take the entry within 20 s".into());
+        }
+    }
+    // k requests from 4 threads
+    let threads = 4usize;
+    let mut joins = vec![];
+    for t in 0..threads {
+        let h = built.handle.clone();
+        let n = k / threads + if t < k % threads { 1 } else { 0 };
+        joins.push(std::thread::spawn(move || (0..n).map(|_| Box::pin(h.flush())).collect::<Vec<_>>()));
+    }
+    let mut futs: Vec<Pin<Box<FlushWait>>> = vec![];
+    for j in joins {
+        futs.extend(j.join().unwrap_or_default());
+    }
+    let mut what = None;
+    // (a completed future must not be polled again)
+    let all = futs.len();
+    futs.retain_mut(|f| !poll_once(f));
+    let early = all - futs.len();
+    if early > 0 {
+        what = Some(format!(
+            "{early} of {k} flush futures are ready while the writer is held and entry 1, appended before every request, has not been handed to the stream"
+        ));
+    }
+    gate.open();
+    let mut pending: Vec<Pin<Box<FlushWait>>> = futs;
+    let t0 = Instant::now();
+    loop {
+        pending.retain_mut(|f| !poll_once(f));
+        if pending.is_empty() || t0.elapsed() > Duration::from_secs(30) {
+            break;
+        }
+        std::thread::sleep(Duration::from_micros(500));
+    }
+    if what.is_none() {
+        if !pending.is_empty() {
+            what = Some(format!("{} of {k} flush futures did not complete within 30 s after the gate opened", pending.len()));
+        } else {
+            let g = gate.lock();
+            match g.calls.iter().position(|c| matches!(c, Call::Next(1, _))) {
+                None => what = Some("all flush futures completed but entry 1 was never handed to the stream".into()),
+                Some(p) => {
+                    if !g.calls[p + 1..].iter().any(|c| *c == Call::Flush) {
+                        what = Some("all flush futures completed but the stream was not flushed after entry 1".into());
+                    }
+                }
+            }
+        }
+    }
+    drop(built.handle);
+    let mut d = JoinDropper::start(built.join, Duration::from_secs(30));
+    d.finish(Duration::from_secs(30));
+    what
+}
+
+fn many_flushes_stage(args: &Args, rep: &mut Report) {
+    let ks: &[usize] = if args.thorough() { &[2, 100, 1025, 3000, 10_000] } else { &[2, 100, 1025, 3000] };
+    let mut reported = false;
+    for &k in ks {
+        for kind in [Kind::Typed, Kind::Boxed] {
+            for held_in_flush in [false, true] {
+                let case = format!("manyflush {} {k} {}", kind.name(), held_in_flush as u8);
+                rep.case(&case, k > 1);
+                rep.bump_by("outstanding flush requests", k as u64);
+                if let Some(what) = many_flushes(kind, k, held_in_flush) {
+                    if !reported {
+                        reported = true;
+                        rep.oracle_failure("queue:c04-flush-barrier", &case, "-", &what);
+                    }
+                }
+            }
+        }
+    }
+    // the model: the number of outstanding requests does not matter
+    let k = 100;
+    let line = format!("script 0 new:4 append:0:o {} gate:1000", vec!["flush"; k].join(" "));
+    match predict(args, &[line.clone()]) {
+        Some(r) => {
+            let obs = split_obs(&r[0]);
+            let before_ok = obs.iter().take(k + 2).all(|o| o.contains(" done=- "));
+            let after_ok = obs.last().map(|o| !o.contains(" done=- ") && o.split(' ').find_map(|f| f.strip_prefix("done=")).map(|d| d.split(',').count() == k).unwrap_or(false)).unwrap_or(false);
+            if !before_ok || !after_ok {
+                rep.disagreement("queue/many-flushes", &line[..60.min(line.len())], "none ready while held, all ready after", obs.last().map(|s| s.as_str()).unwrap_or(""));
+            }
+        }
+        None => rep.driver_available = false,
+    }
+}
+
+
+// ------------------------------------------------------------------------------------------------
+// C09: the configured capacity holds whatever the size of the entry type. A 64 KiB inline entry type,
+// capacities around 64 MiB / size, a stalled writer: `capacity` appends all survive, k more discard exactly the
+// k oldest, the counter says k. Judged by the model (same script, same capacity) and by the statement.
+
+fn big_entry_stage(args: &Args, rep: &mut Report) {
+    let caps: &[usize] = if args.thorough() { &[1023, 1024, 1025, 1200] } else { &[1023, 1025, 1200] };
+    let k = 3usize;
+    for &cap in caps {
+        let case = format!("script 0 new:{cap} {} gate:100000 dropjoin drop:0", vec!["append:0:o"; 1 + cap + k].join(" "));
+        let shown = format!("bigentry size={} script 0 new:{cap} append×{} gate:1000 dropjoin", std::mem::size_of::<BigEntry>(), 1 + cap + k);
+        rep.case(&shown, true);
+        let b = build_big(cap);
+        b.queue.append(BigEntry::new(0));
+        if !wait_until(|| b.gate.lock().entered == 1, Duration::from_secs(20)) {
+            rep.oracle_failure("queue:c01-lost", &shown, "-", "the writer did not take the first entry within 20 s");
+            b.gate.open();
+            continue;
+        }
+        for i in 1..=(cap + k) as u64 {
+            b.queue.append(BigEntry::new(i));
+        }
+        let ov = b.counters.overflows.load(Ordering::SeqCst);
+        b.gate.open();
+        let mut d = JoinDropper::start(b.join, Duration::from_secs(30));
+        let joined = d.finish(Duration::from_secs(60));
+        drop(b.queue);
+        let written: Vec<u64> = b.gate.lock().calls.iter().filter_map(|c| if let Call::Next(id, _) = c { Some(*id) } else { None }).collect();
+        // statement: an entry is lost only if at least `capacity` newer entries were appended while it was queued
+        let mut want: Vec<u64> = vec![0];
+        want.extend((k as u64 + 1)..=(cap + k) as u64);
+        let what = if !joined {
+            Some("drop(join_handle) did not return within 60 s".to_string())
+        } else if ov != k as u64 {
+            Some(format!("metrique_queue_overflows = {ov} after {} appends to a queue of capacity {cap} with a stalled writer, expected {k}", 1 + cap + k))
+        } else if written != want {
+            let lost: Vec<u64> = (0..=(cap + k) as u64).filter(|i| !written.contains(i)).collect();
+            Some(format!(
+                "{} entries were lost (first {:?}, last {:?}) although only the {k} oldest queued entries had {cap} newer entries behind them",
+                lost.len(), lost.first(), lost.last()
+            ))
+        } else {
+            None
+        };
+        if let Some(w) = what {
+            rep.oracle_failure("queue:c09-capacity-not-honoured", &shown, &format!("ov={ov} written={}", written.len()), &w);
+        }
+        // the model: same script with the configured capacity
+        match predict(args, &[case]) {
+            Some(r) => {
+                let last = r[0].rsplit(';').next().unwrap_or("").to_string();
+                let impl_next = written.iter().map(|i| i.to_string()).collect::<Vec<_>>().join(",");
+                let model_next = last.split(' ').find_map(|f| f.strip_prefix("next=")).unwrap_or("");
+                let model_ov = last.split(' ').find_map(|f| f.strip_prefix("ov=")).unwrap_or("");
+                if model_next != impl_next || model_ov != ov.to_string() {
+                    rep.disagreement("queue/big-entry", &shown, &format!("written={} ov={ov}", written.len()), &format!("written={} ov={model_ov}", model_next.split(',').count()));
+                }
+            }
+            None => rep.driver_available = false,
+        }
+        rep.bump(&format!("big entry type: capacity {cap}"));
+    }
+}
+
 // ------------------------------------------------------------------------------------------------
 
 fn split_obs(reply: &str) -> Vec<String> {
@@ -1896,7 +2546,9 @@ fn first_diff(obs: &[String], pred: &[String]) -> Option<usize> {
 }
 
 fn main() {
-    quiet_panics();
+    if std::env::var("VERIF_PANICS").is_err() {
+        quiet_panics();
+    }
     let args = Args::parse();
     let mut rep = Report::new(
         &args,
@@ -1912,7 +2564,10 @@ fn main() {
     let prop = args.property.clone();
     let p = profile(&prop);
     let replay_line = args.replay_case();
-    let only_stage = replay_line.as_ref().map(|l| l.starts_with("recorders") || l.starts_with("subscribed")).unwrap_or(false);
+    let only_stage = replay_line
+        .as_ref()
+        .map(|l| l.starts_with("recorders") || l.starts_with("subscribed") || l.starts_with("extreme") || l.starts_with("manyflush") || l.starts_with("limiter") || l.starts_with("overflow-event") || l.starts_with("bigentry"))
+        .unwrap_or(false);
     // C09: the recorder-routing stage comes first (it installs the process-global metrics recorder)
     if prop == "C09" && (replay_line.is_none() || replay_line.as_ref().unwrap().starts_with("recorders")) {
         let seed = replay_line
@@ -1924,8 +2579,19 @@ fn main() {
         recorder_stage(&args, &mut rep, seed);
     }
     if only_stage {
-        if replay_line.as_ref().unwrap().starts_with("subscribed") {
+        let l = replay_line.as_ref().unwrap();
+        if l.starts_with("subscribed") {
             subscriber_stage(&args, &mut rep);
+        } else if l.starts_with("extreme") {
+            extremes_stage(&args, &mut rep, &mut rng);
+        } else if l.starts_with("manyflush") {
+            many_flushes_stage(&args, &mut rep);
+        } else if l.starts_with("limiter") {
+            limiter_stage(&args, &mut rep);
+        } else if l.starts_with("overflow-event") {
+            overflow_event_stage(&mut rep);
+        } else if l.starts_with("bigentry") {
+            big_entry_stage(&args, &mut rep);
         }
         rep.write(&args);
         return;
@@ -2056,13 +2722,19 @@ fn main() {
         if gr.case.tiny {
             rep.bump("mode:tiny shutdown_timeout");
         }
+        if gr.pred.iter().any(|o| o.contains("hblk=1")) {
+            rep.bump("hit:writer held inside a recorder callback");
+        }
+        if gr.case.ops.iter().any(|o| *o == Op::Sleep) {
+            rep.bump("hit:deadline passed while the writer was held");
+        }
         if gr.case.ops.iter().any(|o| matches!(o, Op::DropJoinU | Op::DropJoinT | Op::DropU(_))) {
             rep.bump("hit:drop while unwinding");
         }
-        if gr.pred.iter().any(|o| o.ends_with("fblk=1")) {
+        if gr.pred.iter().any(|o| o.contains("fblk=1")) {
             rep.bump("hit:writer held inside flush");
         }
-        if gr.pred.iter().any(|o| o.ends_with("fblk=1") && !o.contains("done=- ")) || {
+        if gr.pred.iter().any(|o| o.contains("fblk=1") && !o.contains("done=- ")) || {
             // a flush request pending while the writer is inside shutdown
             let j = gr.case.ops.iter().position(|o| matches!(o, Op::DropJoin | Op::DropJoinU | Op::DropJoinT));
             let f = gr.case.ops.iter().position(|o| *o == Op::Flush);
@@ -2323,8 +2995,21 @@ fn main() {
             rep.oracle_failure(&key, &case, &imp, &what);
         }
     }
-    // C01: the subscriber stage comes last (it installs the process-global tracing subscriber)
+    if prop == "C09" && args.replay.is_none() {
+        big_entry_stage(&args, &mut rep);
+        overflow_event_stage(&mut rep);
+    }
+    if prop == "C05" && args.replay.is_none() {
+        let mut erng = rng.fork(0xe57);
+        extremes_stage(&args, &mut rep, &mut erng);
+    }
+    if prop == "C04" && args.replay.is_none() {
+        many_flushes_stage(&args, &mut rep);
+    }
+    // C01: the limiter stage (needs a quiet process), then the subscriber stage, which comes last (it installs
+    // the process-global tracing subscriber)
     if prop == "C01" && args.replay.is_none() {
+        limiter_stage(&args, &mut rep);
         subscriber_stage(&args, &mut rep);
     }
     rep.write(&args);
